@@ -111,9 +111,9 @@ pub fn run_message_stream() -> RunOut {
     let mut ex = Exec::new();
     ex.spurious = draw(3) == 1;
     if role_server {
-        run_server(&net, &rec, &mut ex);
+        run_server(&net, &rec, &mut ex, 0);
     } else {
-        run_client(&net, &rec, &mut ex);
+        run_client(&net, &rec, &mut ex, 0);
     }
     let stop = ex.run(&mut NetWorld(net.clone()));
     if let Some(p) = &ex.panic {
@@ -207,9 +207,9 @@ pub fn run_control_stream() -> RunOut {
     let mut ex = Exec::new();
     ex.spurious = draw(3) == 1;
     if role_server {
-        run_server(&net, &rec, &mut ex);
+        run_server(&net, &rec, &mut ex, 0);
     } else {
-        run_client(&net, &rec, &mut ex);
+        run_client(&net, &rec, &mut ex, 0);
     }
     let stop = ex.run(&mut NetWorld(net.clone()));
     let cause = format!("api.control.{}.{}", super::c02::type_name(ty), if kind == PayKind::Long { "long" } else { "short" });
